@@ -137,14 +137,14 @@ Proof.
   apply andb_true_iff in E. apply np_pair_loop; [intros; apply np_ok|apply E].
 Qed.
 
-Lemma np_as_int_map e m : np (as_int_map e m).
+Lemma np_as_int_map m : np (as_int_map m).
 Proof.
-  unfold as_int_map. destruct (msg_error m); auto with np.
+  unfold as_int_map, as_int_map_with. destruct (msg_error m); auto with np.
   destruct (map_or_array m && even_len (mvals m)) eqn:E; auto with np.
   apply andb_true_iff in E. apply np_pair_loop; [|apply E].
   intros k v s. destruct (is_str_typ k); auto with np. destruct (mstr v).
   - destruct ((mtyp v =? tInteger) || (mtyp v =? tNull)); auto with np.
-  - destruct (pi0 e _); auto with np.
+  - destruct (parse_int10 _); auto with np.
 Qed.
 
 #[export] Hint Resolve np_as_map np_to_map np_as_str_map np_as_int_map : np.
